@@ -135,8 +135,9 @@ fn main() {
         }
         (prop.run)(&mut ctx);
         if fail_nth > 0 {
+            let fired = monitor::alloc::failure_fired();
             monitor::alloc::arm_failure(-1);
-            println!("ALLOCFAIL nth={} fired={}", fail_nth, monitor::alloc::failure_fired());
+            println!("ALLOCFAIL nth={} fired={}", fail_nth, fired);
         }
         let j = rep.to_json(vec![]);
         println!("{}", j.to_string());
